@@ -815,6 +815,10 @@ class DAGRunConcurrentManager(DAGRunManagerLike):
 
         self._node_storage.delete_active_rec_subgraph(start_from_node_id, node_id)
 
+        # The data is valid for the iterations of this subgraph only. If the start node is executed again later
+        # (e.g. as a part of an enclosing recurrent subgraph), it must not receive the stale data.
+        self._additional_data.pop(start_from_node_id, None)
+
     async def __raise_exc(self, exc: Exception) -> None:
         """
         Raise an exception and let the run method know about the exception so the entire graph could be ended
